@@ -36,7 +36,7 @@ TOL = 1e-5
 TOL_TICKS = int(round(TOL * ONE))
 MARGIN = 5e-5
 KEY_SHIFT_CLIP = "shift-invariance-with-tanh-clipping"
-KEY_TOPP_EPS = "top-p-below-float32-resolution-nan-row"
+KEY_TOPP_EPS = "nan-row:top-p-below-float32-resolution"  # fixed upstream (0ef23b5): a plain violation if it reappears
 
 
 def _dec():
@@ -228,7 +228,7 @@ def run_config(ctx, rows_m, masks, T, k, p, C, tag, compare_model=True, raw_logi
         sa = None
     probs = lp.exp()
     kept = torch.isfinite(lp)
-    nanrow = torch.isnan(lp).any(-1).tolist()
+    nanrow = (torch.isnan(lp).any(-1) | torch.isnan(lp2).any(-1) | torch.isnan(q).any(-1)).tolist()
     lines, meta = [], []
     for b in range(B):
         ms, mk = rows_m[b], masks[b]
@@ -236,7 +236,7 @@ def run_config(ctx, rows_m, masks, T, k, p, C, tag, compare_model=True, raw_logi
                "top_k": k, "top_p": top_p, "tanh_clipping": C,
                "logits": [float(v) for v in logits[b].tolist()]}
         if nanrow[b]:
-            ctx.violation("nan-row", "process_logits returned NaN log-probabilities", wit)
+            ctx.violation("nan-row", "process_logits returned NaN log-probabilities (for these logits, their shift, or with top_p=0)", wit)
             continue
         g = ga[b] if ga is not None else None
         s = sa[b] if sa is not None else None
@@ -401,6 +401,19 @@ def corr_process(ctx):
         run_config(ctx, scores, mk, T, k, p, 10, "saturating-clip", compare_model=False, raw_logits=raw)
         ctx.count("configs saturating-clip (spec only)")
 
+    # huge magnitudes (float32 logits up to ±3e30, clipping off): spec oracle on the real outcomes only
+    for it in range(ctx.budget(30, 300)):
+        n = rng.randint(1, 10)
+        T, p = rng.choice(TEMPS), rng.choice(PS)
+        k = rng.randint(0, n + 2)
+        B = 6
+        scale = rng.choice([1e4, 1e10, 1e30])
+        ks = [[rng.randint(-3, 3) for _ in range(n)] for _ in range(B)]
+        mk = [gen_mask(rng, n, rng.choice(["random", "single", "all"])) for _ in range(B)]
+        raw = torch.tensor([[v * scale for v in r] for r in ks], dtype=torch.float64).to(torch.float32)
+        run_config(ctx, ks, mk, T, k, p, 0, "huge-magnitude", compare_model=False, raw_logits=raw)
+        ctx.count("configs huge-magnitude (spec only)")
+
 
 def corr_select(ctx):
     """`DecodingStrategy.greedy` / `.sampling` on arbitrary log-probabilities and masks (not necessarily
@@ -447,6 +460,10 @@ def corr_select(ctx):
             except AssertionError:
                 sa = None
         draws = rec.draws
+        if sa is None:
+            # unreachable in the code as modelled: the loop only exits when every row is feasible
+            ctx.disagreement("DecodingStrategy.sampling raised its assertion (the model's loop cannot exit on an infeasible draw)",
+                             {"mask": mk, "draws": draws})
         ctx.count("sampling: resampled" if len(draws) > 1 else "sampling: first draw accepted")
         if not draws:
             ctx.count("draws-not-recorded")
@@ -540,7 +557,9 @@ def corr_step(ctx):
 
 def probe_float(ctx):
     """Float32 effects outside the real-number model (DESIGN §6 C10 L / §8): `1 - top_p` rounds to 1.0
-    for `top_p` below float32 resolution and the whole row is filtered out."""
+    for `top_p` below float32 resolution; before upstream fix 0ef23b5 (`sorted_indices_to_remove[..., -1] =
+    False`, mirrored in the model, `Rl4co.Decode.last_never_removed`) the whole row was filtered out and
+    the log-probabilities were NaN.  Any such row is now a plain violation."""
     dec = _dec()
     rng = ctx.rng
     for top_p in (1e-9, 1e-8, 1e-7, 1e-6, 1e-5, 1e-4, 1e-3):
@@ -589,6 +608,7 @@ THEOREMS = [
     Theorem(T + "topk_ge_feasible_stage", "proved", "#feasible ≤ k ⇒ the top-k filter removes no feasible action"),
     Theorem(T + "topk_ge_feasible", "proved", "top-p off and #feasible ≤ k ⇒ every feasible action is in the support"),
     Theorem(T + "topp_mass_ge", "proved", "the support carries mass ≥ top_p of the distribution entering the top-p filter (top_p ≤ 1)"),
+    Theorem(T + "last_never_removed", "proved", "the upstream line `sorted_indices_to_remove[..., -1] = False` (mirrored in the model) is a no-op in exact arithmetic: the last sorted position has cumulative probability 1 > 1 - top_p"),
     Theorem(T + "shift_invariant", "proved", "clipping off: adding a constant to all logits changes neither probabilities nor support"),
     Theorem(T + "valid_shift", "proved", "clipping off: the valid oracle inputs of shifted and unshifted logits coincide"),
     Theorem(T + "shift_invariant_clipped_counterexample", "proved",
@@ -602,11 +622,14 @@ THEOREMS = [
     Theorem(T + "expLike_exp", "proved", "Real.exp is exp-like (hypothesis of the generic theorems is satisfiable)"),
     Theorem(T + "decoding_sound_real", "proved", "all clauses over ℝ with Real.exp"),
     Theorem(T + "shift_invariant_real", "proved", "shift invariance over ℝ with Real.exp, clipping off"),
+    Theorem(T + "exists_valid", "proved", "non-vacuity in general: for every row with a feasible action and T > 0 valid oracle inputs (k-th largest index, sorting permutation) exist"),
+    Theorem(T + "exists_greedyValid", "proved", "an argmax exists for every non-empty row"),
+    Theorem(T + "exists_sampleValid", "proved", "an index of positive probability exists"),
     Theorem(T + "ex_valid", "proved", "non-vacuity: a concrete 4-action row with a tie, a masked action, T=2, top_k=2, top_p=1/2 and valid oracle inputs"),
 ]
 
 register(Unit("C10", "logits", run, drivers=["drv_logits"],
-              lean_modules=["Rl4co.Props.C10.Logits", "Rl4co.Props.C10.LogitsReal"],
+              lean_modules=["Rl4co.Props.C10.Logits", "Rl4co.Props.C10.LogitsReal", "Rl4co.Props.C10.LogitsExists"],
               theorems=THEOREMS,
               assumptions=[MODEL_NOTE, ORACLE_NOTE, SCOPE_NOTE,
                            "the driver instantiates the model with rationals and the weight 2^y on integer logits "
